@@ -236,6 +236,94 @@ def crash_remote(topo, cfg, culprit, kind):
     return h
 
 
+class NullMon:
+    """the agents report their requests to a monitor; C14 does not judge them"""
+    def request(self, *a):
+        pass
+    got = did_set = remote_refused = request
+
+
+def crash_remote_agent(cfg):
+    """a remote agent B (generator simulator making asynchronous get_data / set_data requests to the in-process or remote A) whose
+    process exits at an idle moment chosen by the solver - also while one of its requests is being served or answered"""
+    def h(eng):
+        import mosaik
+        from loguru import logger
+        from vk import remote as R
+        from vk.kernels import c16
+        from vk.sysrun import CTX
+        K = cfg.get('K', 2)
+        st = {'fired': None}
+        loop = R.MemLoop(eng)
+        R.SIM_CLASSES['2'] = c16.AgentSim
+        log = []
+        mon = NullMon()
+        CTX.clear()
+        CTX.update(eng=eng, loop=loop, K=K, until=cfg.get('until', 2), ref=None, log=log, sync={'A', 'B'}, hook=None, mon=mon,
+                   targets={}, requests_per_step=1, bounded_times=True, no_get=cfg.get('no_get', False))
+        outcome = None
+        exc = None
+        closed_by_run = None
+        errs = []
+        hid = logger.add(lambda m: errs.append(str(m)), level='ERROR', format='{message}')
+        try:
+            with sysrun.patched(), R.patched():
+                w = mosaik.World({'S': {'python': 'vk.sysrun:SymSim'}, 'RS': {'connect': 'mem:1'}, 'RG': {'connect': 'mem:2'}}, skip_greetings=True,
+                                 asyncio_loop=loop, cache=cfg.get('cache', False))
+                try:
+                    order = cfg.get('order', 'AB')
+                    ents = {}
+                    for sid in order:
+                        if sid == 'A':
+                            ents['A'] = w.start('RS' if 'A' in cfg.get('remote', 'B') else 'S', sim_id='A', typ='time-based').M()
+                        else:
+                            ents['B'] = w.start('RG', sim_id='B', typ='time-based').M()
+                    w.connect(ents['A'], ents['B'], async_requests=True)
+                    ep = next(e for e in loop.endpoints if getattr(e.sim, 'sid', None) == 'B')
+                    loop.rst = True
+
+                    def process_exit():
+                        st['fired'] = ('any', len(loop.deliveries))
+                        ep.die_now()
+                    loop.events.append(process_exit)
+                    loop.active = True
+                    try:
+                        w.run(until=cfg.get('until', 2), print_progress=False, lazy_stepping=cfg.get('lazy', True))
+                        outcome = 'done'
+                    except sysrun.Deadlock:
+                        outcome = 'deadlock'
+                    except sysrun.Livelock:
+                        outcome = 'livelock'
+                    except Exception as e:  # noqa
+                        outcome = 'exc:' + type(e).__name__
+                        exc = e
+                    finally:
+                        loop.active = False
+                        closed_by_run = loop.is_closed()
+                finally:
+                    if not loop.is_closed():
+                        loop.close()
+        finally:
+            logger.remove(hid)
+        fp = ['remote-agent']
+        desc = f"remote agent B (async requests to A) exits at {st['fired']}; order={cfg.get('order', 'AB')} remote={cfg.get('remote', 'B')} cache={cfg.get('cache', False)}"
+        if st['fired'] is None:
+            return ('nofault:' + str(outcome), {'nontrivial': False})
+        if outcome in ('deadlock', 'livelock'):
+            eng.alarm('C14.hang', f'run() {outcome} after the fault: {desc}; in flight={[(w_.label, len(w_.inflight)) for w_ in loop.wires]}', {'fp': fp})
+        fin = [i for i, x in enumerate(log) if x[0] == 'finalize' and x[1] == 'A']
+        eng.check(len(fin) == 1, 'C14.finalize', f'A was finalized {len(fin)} times: {desc}', {'fp': fp})
+        left = [getattr(e.sim, 'sid', '?') for e in loop.endpoints if e.ended == 'left-behind']
+        eng.check(not left, 'C14.process', f'simulator process(es) {left} still running one (virtual) second after run() ended: {desc}', {'fp': fp})
+        open_ = getattr(loop, 'mosaik_side_open', [])
+        eng.check(not open_, 'C14.socket', f'connection(s) {open_} not closed by mosaik when run() ended: {desc}', {'fp': fp})
+        eng.check(bool(closed_by_run), 'C14.loop', f'event loop not closed after run() (ended with {outcome} {getattr(exc, "args", "")}): {desc}', {'fp': fp})
+        leaked = loop.leaked or []
+        eng.check(not leaked, 'C14.leak', f'{len(leaked)} unfinished task(s) when the loop was closed: {sorted(leaked)[:4]}: {desc}', {'fp': fp})
+        return (outcome, {'nontrivial': True, 'fired': st['fired'], 'leaked': len(leaked)})
+    return h
+
+
 def jobs(tier):
     q = tier == 'quick'
     cur = {t['name']: t for t in T.curated()}
@@ -286,6 +374,12 @@ def jobs(tier):
                         if len(t['types']) > 2:
                             j['split_depth'] = 16
                         out.append(j)
+    # a remote agent with asynchronous requests exits at any idle moment (its requests may be in service)
+    for order, remote in ([('BA', 'AB'), ('AB', 'B')] if q else [('BA', 'AB'), ('AB', 'B'), ('AB', 'AB'), ('BA', 'B')]):
+        for cache in ((False,) if q else (False, True)):
+            cfg = {'until': 2, 'K': 2, 'cache': cache, 'order': order, 'remote': remote}
+            out.append({'id': f"remote-agent|order={order}|remote={remote}|cache={int(cache)}", 'harness': 'vk.kernels.c14:crash_remote_agent',
+                        'params': {'cfg': cfg}, 'budget_s': 300, 'split_depth': 14})
     for kind in ('raise', 'reset') + (() if q else ('eof', 'typeerr')):
         for sync in ([[], ['B'], ['X']] if q else [[], ['A'], ['B'], ['X'], ['A', 'B', 'X']]):
             for cache in (False,) + (() if q else (True,)):
